@@ -74,3 +74,23 @@ func init() {
 			New: "\treconcilers := append(c.reconciler[:0:0], c.reconciler...)\n\tfor _, r := range reconcilers {\n\t\tres, err = r.Reconcile(ctx, objectSet)\n"},
 	)
 }
+
+// Round three: the `include` closure of SprigFuncs as a method of an object that SprigFuncs allocates
+// per call (the nesting depths live in a field of that object instead of a captured local).
+func init() {
+	const sprig = "internal/transform/transformfiles_funcs.go"
+	const closure = "\tincludedNames := map[string]int{}\n\t// Include function executes a template with given data and returns the result as string.\n\t// Use this helper function if you need to modify the resulting output via e.g. | indent.\n\t// Example:\n\t// {{- define \"test-helper\" -}}{{.}}{{- end -}}{{- include \"test-helper\" . | upper -}}\n\tallowedFuncs[\"include\"] = func(name string, data any) (string, error) {\n\t\tvar buf strings.Builder\n\t\tif v, ok := includedNames[name]; ok {\n\t\t\tif v > recursionDepth {\n\t\t\t\treturn \"\", fmt.Errorf(\"including template with name %s: %w\", name, ErrExceededIncludeRecursion)\n\t\t\t}\n\t\t\tincludedNames[name]++\n\t\t} else {\n\t\t\tincludedNames[name] = 1\n\t\t}\n\t\terr := t.ExecuteTemplate(&buf, name, data)\n\t\tincludedNames[name]--\n\t\treturn buf.String(), err\n\t}\n\n"
+	const decl = "const recursionDepth = 1000\n"
+	addMutants(
+		Mutant{Prop: "C10", Name: "r3-benign-closure-state-in-fresh-object", File: sprig, Benign: true,
+			Old: closure, New: "\tinc := &includer{tmpl: t, includedNames: map[string]int{}}\n\tallowedFuncs[\"include\"] = inc.include\n\n", More: []Edit{{File: sprig, Old: decl, New: "const recursionDepth = 1000\n\ntype includer struct {\n\ttmpl          *template.Template\n\tincludedNames map[string]int\n}\n\nfunc (i *includer) include(name string, data any) (string, error) {\n\tvar buf strings.Builder\n\tif v, ok := i.includedNames[name]; ok {\n\t\tif v > recursionDepth {\n\t\t\treturn \"\", fmt.Errorf(\"including template with name %s: %w\", name, ErrExceededIncludeRecursion)\n\t\t}\n\t\ti.includedNames[name]++\n\t} else {\n\t\ti.includedNames[name] = 1\n\t}\n\terr := i.tmpl.ExecuteTemplate(&buf, name, data)\n\ti.includedNames[name]--\n\treturn buf.String(), err\n}\n"}}},
+		Mutant{Prop: "C10", Name: "r3-fresh-object-holds-package-level-map", File: sprig,
+			Why: "the nesting depths of all renders of the process share one package-level map",
+			Old: closure, New: "\tinc := &includer{tmpl: t, includedNames: includeDepths}\n\tallowedFuncs[\"include\"] = inc.include\n\n", More: []Edit{{File: sprig, Old: decl, New: "const recursionDepth = 1000\n\ntype includer struct {\n\ttmpl          *template.Template\n\tincludedNames map[string]int\n}\n\nfunc (i *includer) include(name string, data any) (string, error) {\n\tvar buf strings.Builder\n\tif v, ok := i.includedNames[name]; ok {\n\t\tif v > recursionDepth {\n\t\t\treturn \"\", fmt.Errorf(\"including template with name %s: %w\", name, ErrExceededIncludeRecursion)\n\t\t}\n\t\ti.includedNames[name]++\n\t} else {\n\t\ti.includedNames[name] = 1\n\t}\n\terr := i.tmpl.ExecuteTemplate(&buf, name, data)\n\ti.includedNames[name]--\n\treturn buf.String(), err\n}\n\nvar includeDepths = map[string]int{}\n"}},
+			Expect: []string{"C10.R3@(*internal/transform.includer).include#mapupdate-internal/transform.includer.includedNames"}},
+		Mutant{Prop: "C10", Name: "r3-method-object-shared-by-all-renders", File: sprig,
+			Why: "one package-level includer serves every render: state survives the reconcile",
+			Old: closure, New: "\tinc := theIncluder\n\tinc.tmpl = t\n\tallowedFuncs[\"include\"] = inc.include\n\n", More: []Edit{{File: sprig, Old: decl, New: "const recursionDepth = 1000\n\ntype includer struct {\n\ttmpl          *template.Template\n\tincludedNames map[string]int\n}\n\nfunc (i *includer) include(name string, data any) (string, error) {\n\tvar buf strings.Builder\n\tif v, ok := i.includedNames[name]; ok {\n\t\tif v > recursionDepth {\n\t\t\treturn \"\", fmt.Errorf(\"including template with name %s: %w\", name, ErrExceededIncludeRecursion)\n\t\t}\n\t\ti.includedNames[name]++\n\t} else {\n\t\ti.includedNames[name] = 1\n\t}\n\terr := i.tmpl.ExecuteTemplate(&buf, name, data)\n\ti.includedNames[name]--\n\treturn buf.String(), err\n}\n\nvar theIncluder = &includer{includedNames: map[string]int{}}\n"}},
+			Expect: []string{"C10.R3@(*internal/transform.includer).include#mapupdate-internal/transform.includer.includedNames"}},
+	)
+}
